@@ -326,6 +326,65 @@ func (r *Run) c12RelaxFlag() {
 	r.Check(okMono, "relaxed-flag.monotone", p.Pos(flag.Pos()), "once cleared the flag stays false for the rest of the sweep", why)
 	r.Check(clears, "relaxed-flag.cleared", p.Pos(flag.Pos()), "the flag is cleared when |signal[i] - pending[i]| exceeds maxAllowedSignalDelta for the neuron i being committed", "the relaxed flag is never cleared by a |signal[i]-pending[i]| > maxAllowedSignalDelta test on the neuron being committed")
 
+	// every neuron that is committed is tested: an iteration that overwrites neuronSignals[i] evaluates the tolerance
+	// test of that neuron, unless the flag is already known to be cleared on that path (short-circuit)
+	okEvery, whyEvery := true, ""
+	if paths, complete := EnumIterPaths(fs, loop, 256); !complete {
+		okEvery, whyEvery = false, "too many paths through one iteration of the committing loop"
+	} else {
+		for _, ip := range paths {
+			if ip.End != "back" {
+				continue
+			}
+			commits, tested, cleared := false, false, false
+			for _, b := range ip.Blocks {
+				for _, in := range b.Instrs {
+					if st, ok := in.(*ssa.Store); ok {
+						if ia, ok := st.Addr.(*ssa.IndexAddr); ok && tm.Of(ia.X).String() == "recv.neuronSignals" {
+							commits = true
+						}
+					}
+					if v, ok := in.(ssa.Value); ok && tol(v, 0) != 0 {
+						tested = true
+					}
+				}
+			}
+			for _, g := range ip.Conds {
+				c, out := g.Cond, g.True
+				for {
+					if u, isU := c.(*ssa.UnOp); isU && u.Op == token.NOT {
+						c, out = u.X, !out
+						continue
+					}
+					break
+				}
+				if c == ssa.Value(flag) && !out {
+					cleared = true
+				}
+				// no tolerance asked for: under maxAllowedSignalDelta <= 0 nothing is tested (the untested arm);
+				// `!(delta > 0)` says the same for every value a tolerance can take (a float comparison is not negated by CmpFact)
+				if bo, isB := c.(*ssa.BinOp); isB && !out && isParamIdx(tm.Of(bo.X), 1) && c12ZeroConst(bo.Y) && (bo.Op == token.GTR || bo.Op == token.GEQ) {
+					cleared = true
+				}
+				if x, y, op, ok := CmpFact(g.Cond, g.True); ok && isParamIdx(tm.Of(x), 1) {
+					k, isK := constInt(y)
+					if ((isK && k == 0) || c12ZeroConst(y)) && (op == token.LEQ || op == token.LSS || op == token.EQL) {
+						cleared = true
+					}
+				}
+			}
+			if commits && !tested && !cleared {
+				okEvery = false
+				var cs []string
+				for _, g := range ip.Conds {
+					cs = append(cs, fmt.Sprintf("%s is %v", tm.Of(g.Cond), g.True))
+				}
+				whyEvery = "an iteration commits neuronSignals[i] without evaluating the |old-new| > maxAllowedSignalDelta test of that neuron while the flag may still be true (path on which " + strings.Join(cs, ", ") + "): a neuron that still moves does not keep the network from being reported relaxed, and Relax returns before the wave has arrived"
+			}
+		}
+	}
+	r.Check(okEvery, "relaxed-flag.every-neuron", p.Pos(flag.Pos()), "every neuron whose signal is committed is subjected to the tolerance test (or the flag is already cleared)", whyEvery)
+
 	// the old signal is read before it is overwritten
 	okOrder := true
 	Instrs(fs, func(b *ssa.BasicBlock, i int, in ssa.Instruction) {
